@@ -279,6 +279,8 @@ class IncrementalDecoder(codecs.IncrementalDecoder):
     def __init__(self, errors="strict", encoding=None, force=True):
         self.decoder = None
         self.encoding = encoding
+        # ``decode()`` replaces ``self.encoding`` by the detected encoding; ``reset()`` must forget that
+        self._initialencoding = encoding
         self.force = force
         codecs.IncrementalDecoder.__init__(self, errors)
         # Store ``errors`` somewhere else,
@@ -338,6 +340,7 @@ class IncrementalDecoder(codecs.IncrementalDecoder):
     def reset(self):
         codecs.IncrementalDecoder.reset(self)
         self.decoder = None
+        self.encoding = self._initialencoding
         self.buffer = b""
         self.headerfixed = False
 
@@ -381,6 +384,8 @@ class IncrementalEncoder(codecs.IncrementalEncoder):
     def __init__(self, errors="strict", encoding=None):
         self.encoder = None
         self.encoding = encoding
+        # ``encode()`` replaces ``self.encoding`` by the encoding the text declares; ``reset()`` must forget that
+        self._initialencoding = encoding
         codecs.IncrementalEncoder.__init__(self, errors)
         # Store ``errors`` somewhere else,
         # because we have to hide it in a property
@@ -432,6 +437,7 @@ class IncrementalEncoder(codecs.IncrementalEncoder):
     def reset(self):
         codecs.IncrementalEncoder.reset(self)
         self.encoder = None
+        self.encoding = self._initialencoding
         self.buffer = ""
 
     def _geterrors(self):
